@@ -40,7 +40,8 @@ package crlreader
 // ---- the streaming reader
 
 //@ func StreamingCRLFileReader.ReadCRL
-//@   props C06 C07 C04 C01
+//@   props C06 C07 C04 C01 C11
+//@   ensures[C04,C06,C11] parsed_extensions_reach_the_gate_and_the_result: called(parseExtensions#1) && res(parseExtensions#1, 1) == nil && called(CheckForCriticalUnhandledCRLExtensions#1) ==> arg(CheckForCriticalUnhandledCRLExtensions#1, 0) == res(parseExtensions#1, 0) && (r1 == nil ==> r0.CRLExtensions == res(parseExtensions#1, 0))
 
 //@ func parseRevokedCertificateList
 //@   props C06 C07 C01 C17
